@@ -387,4 +387,31 @@ theorem rangeF_spec (g : Int) (hg : 1 ≤ g) : ∀ (fuel : Nat) (b e : Int), (e 
     · rw [if_pos h0]
       exact ⟨_, [], rfl, by simp [FJ.seq], by rw [if_neg h0]⟩
 
+/-! ### observations -/
+
+theorem calls_map_call (l : List Int) : calls (l.map Ev.call) = l := by
+  induction l with
+  | nil => rfl
+  | cons x l ih => simp only [calls, List.map_cons, List.filterMap_cons] at ih ⊢; rw [ih]
+
+theorem chunks_map_call (l : List Int) : chunks (l.map Ev.call) = [] := by
+  induction l with
+  | nil => rfl
+  | cons x l ih => simp only [chunks, List.map_cons, List.filterMap_cons] at ih ⊢; rw [ih]
+
+theorem calls_map_chunk {α : Type} (f g : α → Int) (l : List α) :
+    calls (l.map fun c => Ev.chunk (f c) (g c)) = [] := by
+  induction l with
+  | nil => rfl
+  | cons x l ih => simp only [calls, List.map_cons, List.filterMap_cons] at ih ⊢; rw [ih]
+
+theorem chunks_map_chunk {α : Type} (f g : α → Int) (l : List α) :
+    chunks (l.map fun c => Ev.chunk (f c) (g c)) = l.map fun c => (f c, g c) := by
+  induction l with
+  | nil => rfl
+  | cons x l ih => simp only [chunks, List.map_cons, List.filterMap_cons] at ih ⊢; rw [ih]
+
+theorem calls_perm {s s' : List Ev} (h : s.Perm s') : (calls s).Perm (calls s') := h.filterMap _
+theorem chunks_perm {s s' : List Ev} (h : s.Perm s') : (chunks s).Perm (chunks s') := h.filterMap _
+
 end MythVerif.ParFor
